@@ -2,7 +2,7 @@
    Property theorems only; proofs are in ProofC06.v.  Time is the clock of the scripted transport:
    it advances only inside ChannelIO.read and time.sleep (the interpreter's own latency is not
    modelled -- the claim is partial in that sense, see DESIGN.md). *)
-From TV Require Import Base BaseLemmas Utf8 Regex Channel ChannelLemmas ProofC02 ProofC03 ProofC06 SubIO ProofC06b ProofSession ProofC04b ProofLive.
+From TV Require Import Base BaseLemmas Utf8 Regex Channel ChannelLemmas ProofC02 ProofC03 ProofC06 SubIO ProofC06b ProofSession ProofC04b ProofLive ProofLive2.
 
 (* every operation called at time now with timeout T >= 0: has returned or raised by now + T,
    raises TimeoutError exactly AT now + T (never before), however the data trickles in *)
@@ -163,3 +163,17 @@ Theorem C06_read_until_prompt_live_under_deadline :
              now (io c') = last_time c.
 Proof. exact rup_timed_live. Qed.
 Print Assumptions C06_read_until_prompt_live_under_deadline.
+
+(* (12) ... and not cut short the other way either: when the prompt does NOT occur among the bytes that arrive before
+        the deadline, read_until_prompt(prompt, timeout=T) raises TimeoutError exactly T after it began, having consumed
+        exactly what had arrived by then (what arrives later stays for the next read) -- for EVERY fragmentation *)
+Theorem C06_read_until_prompt_times_out_exactly_at_the_deadline :
+  forall P T c,
+  wfc c -> deaths c = [] -> (0 < T)%Z ->
+  contains P (firstn (ready (Some (now (io c) + T)%Z) (pend (io c))) (cpend c)) = false ->
+  exists c', read_until_prompt (Some (SLit P)) (Some T) c = (ETimeout, c') /\
+    now (io c') = (now (io c) + T)%Z /\
+    cpend c' = skipn (ready (Some (now (io c) + T)%Z) (pend (io c))) (cpend c) /\
+    wfc c' /\ deaths c' = [] /\ same_cfg c c'.
+Proof. exact rup_timed_out. Qed.
+Print Assumptions C06_read_until_prompt_times_out_exactly_at_the_deadline.
